@@ -7,7 +7,7 @@ mc_Configs == { [cd |-> 3, wg |-> 0, ws |-> <<WCfg("w1", 1, 1, 0)>>, obeyset |->
 Rq(cmd, nm, waiting) == [cmd |-> cmd, name |-> nm, lname |-> nm, hasname |-> nm # "", mid |-> "", waiting |-> waiting,
             cast |-> FALSE, pid |-> -1, signum |-> -1, children |-> FALSE, recursive |-> FALSE, childpid |-> -1,
             nb |-> 1, G |-> -1, nostop |-> FALSE, graceful |-> TRUE, sequential |-> FALSE, raw |-> FALSE,
-            start |-> FALSE, addnp |-> 1, addG |-> 1, addW |-> 0, addsing |-> FALSE, nopts |-> 1]
+            start |-> FALSE, addnp |-> 1, addG |-> 1, addW |-> 0, addsing |-> FALSE, nopts |-> 1, pattern |-> FALSE]
 mc_Requests == { Rq("stop", "w1", TRUE), Rq("incr", "w1", FALSE) }
 mc_DieStatuses == {256}
 mc_ObeyChoices == {TRUE}
